@@ -1,6 +1,6 @@
 """C13 — the device receives exactly the lines given, and failures stop the run.
 
-proof: coq/proofs/Send_Proofs.v + Response_Proofs.v over coq/model/Send.v + Response.v, props/C13.v.
+proof: coq/proofs/Send_Proofs.v + Response_Proofs.v + ResponseRaw_Proofs.v over coq/model/Send.v + Response.v + ResponseRaw.v, props/C13.v.
 tie: Gen_Send.v regenerated from the source (marker lists, level tables, abort shapes of both twins read
 from the AST, structural facts of send_commands) + correspondence of the model against the real drivers
 (sync and asyncio, generic / network / the five core platforms) over the simulated device.
@@ -67,6 +67,46 @@ def dev_key(line):
     return line.encode("utf-8").decode("latin-1").strip()
 
 
+def out_bytes(x):
+    """what the device prints for one planned output: a str stands for its UTF-8 encoding, {"hex": ...} for exactly these bytes
+    (any bytes: latin-1 text, lone continuation bytes, truncated or ill-formed sequences)"""
+    return bytes.fromhex(x["hex"]) if isinstance(x, dict) else x.encode("utf-8")
+
+
+def is_utf8(b):
+    """well-formed UTF-8?  Decided from the standard's table of well-formed sequences (no lone continuation bytes, no truncated
+    sequences, no overlong forms, no surrogates, nothing above U+10FFFF), not by calling the code under test."""
+    i, n = 0, len(b)
+    while i < n:
+        c = b[i]
+        if c < 0x80:
+            i += 1
+            continue
+        if 0xC2 <= c <= 0xDF:
+            need, lo, hi = 1, 0x80, 0xBF
+        elif 0xE0 <= c <= 0xEF:
+            need, lo, hi = 2, (0xA0 if c == 0xE0 else 0x80), (0x9F if c == 0xED else 0xBF)
+        elif 0xF0 <= c <= 0xF4:
+            need, lo, hi = 3, (0x90 if c == 0xF0 else 0x80), (0x8F if c == 0xF4 else 0xBF)
+        else:
+            return False
+        tail = b[i + 1:i + 1 + need]
+        if len(tail) != need or not (lo <= tail[0] <= hi) or any(not (0x80 <= t <= 0xBF) for t in tail[1:]):
+            return False
+        i += 1 + need
+    return True
+
+
+def raw_text(b):
+    """the text a byte string is read as (the documented reading of Response.result): UTF-8 where it is well-formed UTF-8,
+    otherwise one character per byte (ISO-8859-1)"""
+    return b.decode("utf-8") if is_utf8(b) else "".join(chr(c) for c in b)
+
+
+def out_text(x):
+    return raw_text(bytes.fromhex(x["hex"])) if isinstance(x, dict) else x
+
+
 def op_lines(op):
     """the lines of an op as Python itself splits them (independent of the model)"""
     if op["op"] in ("send_config", "send_commands_from_file", "send_configs_from_file"):
@@ -74,9 +114,21 @@ def op_lines(op):
     return list(op["lines"])
 
 
+_FILE_DIRS = [0]
+
+
 def run_connection(scn, workdir):
-    """returns the list of observations, one per op"""
+    """returns the list of observations, one per op.
+    Files of the from-file ops live in a directory of this connection alone (removed afterwards): nothing a process keeps per path
+    carries over from one scenario to the next, so a scenario fails or holds on its own and its replay in a fresh process sees what
+    the run saw.  The history of a file is part of the scenario: ops with the same "path_id" send the SAME path again, rewritten in
+    between ("keep_mtime": with the modification time it had, as cp -p / rsync -t do)."""
+    import shutil
     from .simdevice import Runner, SimDevice, Starved, make_driver
+    fdir = os.path.join(workdir, "c13_files_%d_%d" % (os.getpid(), _FILE_DIRS[0]))
+    _FILE_DIRS[0] += 1
+    shutil.rmtree(fdir, ignore_errors=True)
+    os.makedirs(fdir)
 
     kind, stack = scn["kind"], scn["stack"]
     state = {"lines": [], "outs": [], "i": 0}
@@ -88,7 +140,7 @@ def run_connection(scn, workdir):
         if state["i"] < len(ls) and dev_key(ls[state["i"]]) == line:
             o = outs[state["i"]]
             state["i"] += 1
-            return o.encode("utf-8")
+            return out_bytes(o)
         return b""
 
     dev = SimDevice(plat(kind), outputs=outputs, host=scn.get("host", "router1"))
@@ -148,9 +200,12 @@ def run_connection(scn, workdir):
             if name in ("send_configs", "send_config", "send_configs_from_file") and op["priv"]:
                 kw["privilege_level"] = op["priv"]
             if name in ("send_commands_from_file", "send_configs_from_file"):
-                path = os.path.join(workdir, "c13_input_%d.txt" % k)
+                path = os.path.join(fdir, "input_%s.txt" % ("p%d" % op["path_id"] if op.get("path_id") is not None else k))
+                before = os.stat(path) if os.path.exists(path) else None
                 with open(path, "wb") as f:
                     f.write(op["text"].encode("utf-8"))
+                if before is not None and op.get("keep_mtime"):
+                    os.utime(path, ns=(before.st_atime_ns, before.st_mtime_ns))
                 arg = path
             elif name == "send_config":
                 arg = op["text"]
@@ -198,6 +253,7 @@ def run_connection(scn, workdir):
                 break
     finally:
         run.close()
+        shutil.rmtree(fdir, ignore_errors=True)
     return obs
 
 
@@ -242,7 +298,7 @@ def planned(kind, op, o):
     stop, eager = (op["stop"], op["eager"]) if op["op"] != "send_command" else (False, False)
     sent, exp_flags = [], []
     for i, l in enumerate(lines):
-        res = "" if (eager and i < n - 1) else outs[i]
+        res = "" if (eager and i < n - 1) else out_text(outs[i])
         f = any(m in res for m in M)
         sent.append(l)
         exp_flags.append(f)
@@ -397,7 +453,8 @@ def oracle(kind, op, o):
                     bad.append(("failed-vs-output", "response %d failed=%s but its output %r contains a marker: %s" % (j, f, res[:80], not f)))
                     break
                 if f != exp_flags[j]:
-                    bad.append(("failed-vs-device", "response %d failed=%s but the device's output %r says %s" % (j, f, outs[j][:80], exp_flags[j])))
+                    bad.append(("failed-vs-device", "response %d failed=%s but the device's output %r says %s (markers %r)" % (
+                        j, f, out_bytes(outs[j])[:80] if isinstance(outs[j], dict) else outs[j][:80], exp_flags[j], [m[:40] for m in M][:4])))
                     break
             if op["op"] != "send_command" and o["multi_failed"] != any(o["flags"]):
                 bad.append(("multi-failed", "MultiResponse.failed=%s, elements %s" % (o["multi_failed"], o["flags"])))
@@ -463,7 +520,7 @@ def case_term(kind, stack, op, o):
     lines = op_lines(op)
     n = len(lines)
     # outputs the channel returned: observed where a line was read to the prompt, planned otherwise
-    outs = list(op["outs"]) + [""] * (n - len(op["outs"]))
+    outs = [out_text(x) for x in op["outs"]] + [""] * (n - len(op["outs"]))
     if op["op"] != "send_config":
         for j, res in enumerate(o["results"]):
             if j < n and not (op["op"] != "send_command" and op["eager"] and j < n - 1):
@@ -878,6 +935,144 @@ def marker_corpus():
     return out
 
 
+# ------------------------------------------------------------------------------------------------
+# device outputs as BYTES: what a device prints need not be UTF-8.  Families of outputs with bytes >= 0x80 that are not
+# well-formed UTF-8 (lone continuation bytes, ISO-8859-1 text, truncated sequences, ill-formed ones: overlong forms,
+# surrogates, above U+10FFFF, 0xFE/0xFF) and of well-formed multi-byte UTF-8, each with and without a failure marker
+# (the marker before / after / right next to the bytes, on another line, or broken by such a byte), on every op kind,
+# mostly with stop_on_failed.  Expectation as everywhere (planned()): failed <=> a marker occurs in the output's text.
+# ------------------------------------------------------------------------------------------------
+RAW_FAMILIES = {
+    "lone-continuation": [b"\x80", b"\xbf", b"\x93\xa5", b"\xb6", b"\xb6\x93\xa5", b"\xa9", b"\x99x\x9c"],
+    "latin1-text": [t.encode("latin-1") for t in ("caf\xe9", "Gr\xfc\xdfe aus K\xf6ln", "r\xe9sum\xe9 n\xb05", "se\xf1or", "\xa9 2024 ACME",
+                                                  "na\xefve co\xfbt", "d\xe9j\xe0 vu", "\xe9", "\xc5ngstr\xf6m 5\xb5m")],
+    "truncated": [b"\xc3", b"\xe2\x82", b"\xf0\x9f\x98", b"\xe4\xb8", b"\xf0\x9f", b"\xd0", b"\xe2", b"\xf0"],
+    "ill-formed": [b"\xc0\xaf", b"\xc1\xbf", b"\xed\xa0\x80", b"\xf5\x80\x80\x80", b"\xff", b"\xfe\xff", b"\xe0\x80\x80", b"\xf4\x90\x80\x80",
+                   b"\xc3\x28", b"\xf0\x80\x80\x80", b"\xf8\x88\x80\x80\x80", b"\xe2\x28\xa1"],
+}
+RAW_VALID = ["\u00e9", "Gr\u00fc\u00dfe", "\u4e2d\u6587 ok", "\U0001f600", "\u20ac42", "\u0436", "na\u00efve co\u00fbt", "\u00a9 2024", "\u03a9",
+             "\U0010ffff", "\ud7ff\ue000", "\u0080\u07ff\u0800"]
+RAW_KINDS = sorted(RAW_FAMILIES) + ["valid-multibyte", "valid-multibyte", "mixed"]
+
+
+def raw_safe(b):
+    """(as out_safe, on bytes) the channel rstrips lines, strips the whole and removes lines that end like a prompt: stay away from that"""
+    if b != b.strip() or any(c < 32 and c != 10 for c in b):
+        return False
+    return all(l == l.rstrip() and (not l or l[-1] >= 0x80 or chr(l[-1]).isalnum() or chr(l[-1]) in LINE_ENDS_OK) for l in b.split(b"\n"))
+
+
+def raw_piece(rng, fam):
+    if fam == "valid-multibyte":
+        return rng.choice(RAW_VALID).encode("utf-8")
+    if fam == "mixed":
+        a, b = rng.choice(RAW_VALID).encode("utf-8"), rng.choice(RAW_FAMILIES[rng.choice(sorted(RAW_FAMILIES))])
+        return rng.choice([a + b" " + b, b + b" " + a, a + b, b + a])
+    return rng.choice(RAW_FAMILIES[fam])
+
+
+def gen_raw_output(rng, M, fam=None, safe=True):
+    """one device output (str if it is well-formed UTF-8, {"hex": ...} otherwise) for a call whose effective marker set is M"""
+    ms = [m for m in M if m]
+    raw = raw_piece(rng, fam or rng.choice(RAW_KINDS))
+    k = rng.random()
+    mk = None
+    if ms and k < 0.45:                                    # a marker, literally
+        mk = rng.choice(ms).encode("utf-8")
+    elif ms and k < 0.62:                                  # a near miss: the marker broken by such a byte, or one character short
+        m = rng.choice(ms).encode("utf-8")
+        i = rng.randint(1, max(1, len(m) - 1))
+        mk = rng.choice([m[:i] + rng.choice([b"\x80", b"\xe9", b"\xc3", b"\xff"]) + m[i:], m[:-1] or b"x", m[1:] or b"x"])
+    if mk is None:
+        b = rng.choice([raw, b"ok " + raw, raw + b" ok %d" % rng.randint(0, 99), b"row 1 " + raw + b"\nrow 2 value x", b"a" + raw + b"z",
+                        raw + b"\n" + raw_piece(rng, rng.choice(RAW_KINDS))])
+    else:
+        raw2 = raw_piece(rng, rng.choice(RAW_KINDS))
+        b = rng.choice([raw + b" " + mk, mk + b" " + raw, raw + mk + raw2, mk + raw, raw + mk,
+                        b"line before\n" + raw + b"\n  ^ " + mk + b" (detail)\nline after", mk + b"\n" + raw, b"a" + raw + b"z " + mk + b" ok"])
+    if safe and not raw_safe(b):
+        b = b"a" + b.replace(b"\n", b"_").strip() + b"z"
+        if not raw_safe(b):
+            b = b"ok " + raw_piece(rng, "latin1-text") + b" 1"
+    return b.decode("utf-8") if is_utf8(b) else {"hex": b.hex()}
+
+
+def gen_raw_scenario(rng, trans, kind=None, stack=None):
+    kind = kind or rng.choice(KINDS)
+    stack = stack or rng.choice(["sync", "async"])
+    vendor = VENDOR_ERRORS[kind]
+    r = rng.random()
+    if r >= 0.88:                                          # a marker that is not ASCII itself
+        fwc = rng.choice(["\u00e9!", ["\u00fc-marker"], ["\u20ac5", "ERR"]])
+    elif kind == "generic":
+        fwc = rng.choice(["unknown command", ["unknown command", "ERR"], ["ERR"], "ERR"])
+    elif r < 0.5:
+        fwc = None
+    else:
+        fwc = rng.choice(["ERR", ["ERR", "bad thing"], ["Invalid", "syntax error"], vendor[0], "fail here"])
+    eff = vendor if fwc is None else ([fwc] if isinstance(fwc, str) else list(fwc))
+    ops = []
+    for _ in range(rng.choice([1, 1, 2])):
+        force = {"fwc": fwc, "outgen": (lambda: gen_raw_output(rng, eff)), "stop": rng.random() < 0.8, "eager": rng.random() < 0.1,
+                 "n": rng.choice([1, 2, 3, 3, 4, 5])}
+        ops.append(gen_op(rng, kind, trans, force))
+    pol = rng.choice([("whole",), ("whole",), ("bytes", 1), ("bytes", 3), ("bytes", 7), ("random", rng.randint(0, 10 ** 6), 9)])
+    if any(o["eager"] for o in ops if o["op"] != "send_command"):
+        pol = ("whole",)
+    return {"kind": kind, "stack": stack, "ops": ops, "policy": list(pol)}
+
+
+def raw_corpus():
+    """fixed shapes, every driver: a stop_on_failed run whose first lines print non-UTF-8 / multi-byte output WITHOUT a marker (the run
+    must go on), then one with a marker next to such bytes (the run must stop there), then a line that must never be sent"""
+    out = []
+    for i, kind in enumerate(KINDS):
+        stack = ("sync", "async")[i % 2]
+        err = VENDOR_ERRORS[kind][0]
+        fwc = err if kind == "generic" else None
+        name = "send_commands" if kind == "generic" else ("send_configs", "send_configs_from_file", "send_config")[i % 3]
+        lines = ["set ok 1", "set ok 2", "set ok 3", "set bad 4", "set never 5"]
+        outs = [{"hex": "caf\xe9 ok".encode("latin-1").hex()}, "Gr\u00fc\u00dfe \u4e2d\u6587 ok", {"hex": (b"row 1 \xe2\x82").hex()},
+                {"hex": (b"\xb6\x93\xa5 " + err.encode("utf-8")).hex()}, ""]
+        op = {"op": name, "lines": lines, "outs": outs, "fwc": fwc, "stop": True, "eager": False, "priv": ""}
+        if name in ("send_config", "send_configs_from_file"):
+            op["text"] = "\n".join(lines)
+        op2 = {"op": "send_command", "lines": ["show thing"], "outs": [{"hex": (b"\x80 up \xc0\xaf").hex()}], "fwc": fwc, "stop": False, "eager": False,
+               "priv": ""}
+        op3 = {"op": "send_commands", "lines": ["show a", "show b", "show c"], "fwc": fwc, "stop": False, "eager": False, "priv": "",
+               "outs": [{"hex": (b"\xff\xfe").hex()}, {"hex": (err.encode("utf-8") + b"\xbf").hex()}, "\U0001f600 " + err]}
+        out.append({"kind": kind, "stack": stack, "policy": [["whole"], ["bytes", 1], ["bytes", 3]][i % 3], "ops": [op, op2, op3]})
+    return out
+
+
+def gen_file_history(rng, trans):
+    """the same file path sent two or three times on one connection, rewritten in between (other lines, fewer / more lines, or the very
+    same content), with its modification time preserved or not: every send delivers the lines the file holds NOW"""
+    kind = rng.choice(KINDS)
+    names = ["send_commands_from_file"] if kind == "generic" else ["send_commands_from_file", "send_configs_from_file", "send_configs_from_file"]
+    ops = []
+    for j in range(rng.choice([2, 2, 3])):
+        if ops and rng.random() < 0.15:
+            op = json.loads(json.dumps(ops[-1]))             # sent again unchanged
+        else:
+            op = gen_op(rng, kind, trans, {"op": rng.choice(names), "n": rng.choice([1, 2, 3, 4])})
+        op["path_id"] = 0 if rng.random() < 0.85 else 1
+        op["keep_mtime"] = rng.random() < 0.5
+        ops.append(op)
+    return {"kind": kind, "stack": rng.choice(["sync", "async"]), "ops": ops, "policy": ["whole"]}
+
+
+def file_history_corpus():
+    out = []
+    for kind, stack, name in (("generic", "sync", "send_commands_from_file"), ("cisco_iosxe", "async", "send_configs_from_file"),
+                              ("juniper_junos", "sync", "send_configs_from_file")):
+        texts = ["set a 1\nset b 2\n", "set c 3\n", "set c 3\nset d 4\nset e 5"]
+        out.append({"kind": kind, "stack": stack, "policy": ["whole"], "ops": [
+            {"op": name, "text": t, "lines": [], "outs": [], "fwc": None, "stop": bool(j % 2), "eager": False, "priv": "", "path_id": 0, "keep_mtime": j != 2}
+            for j, t in enumerate(texts)]})
+    return out
+
+
 def gen_scenario(rng, trans, kind=None, stack=None):
     kind = kind or rng.choice(KINDS)
     stack = stack or rng.choice(["sync", "async"])
@@ -1004,16 +1199,20 @@ def exhaustive_small(kind, stack, maxlen):
 # the response layer alone: Response / MultiResponse of the real code on (marker set, output) pairs without a device in
 # between, so that outputs may be anything (marker at the very edge, blank edges, newlines inside markers, empty output)
 # ------------------------------------------------------------------------------------------------
-DIRECT_HEADER = """From Verif Require Import Bytes Response.
-Definition dcase := (fwc * list bytes * list bool * bool)%type.
+DIRECT_HEADER = """From Verif Require Import Bytes Response ResponseRaw.
+Definition dcase := (fwc * list bytes * list bytes * list bool * bool)%type.
 Definition bools_eq (a b : list bool) : bool :=
   (length a =? length b)%nat && forallb (fun p => Bool.eqb (fst p) (snd p)) (combine a b).
+(* the bytes handed to record_response, the observed result texts (as UTF-8), the observed flags *)
 Definition dchk (c : dcase) : bool :=
-  let '(f, results, oflags, omulti) := c in
-  let rs := map (fun res => record_response (new_response [120] f) res) results in
-  bools_eq (map r_failed rs) oflags && Bool.eqb (multi_failed rs) omulti.
+  let '(f, raws, oresults, oflags, omulti) := c in
+  let rs := map (fun raw => record_raw (new_response [120] f) raw) raws in
+  bools_eq (map r_failed rs) oflags && lbeq (map r_result rs) oresults && Bool.eqb (multi_failed rs) omulti.
 """
 DIRECT_HEADER += "".join("Definition xb%d : N := %d.\n" % (i, i) for i in range(256))
+
+
+DIRECT_JOBS = 3                  # coqc processes of the response-layer cases (the rest of common.JOBS goes to the main suite)
 
 
 def gen_direct(rng):
@@ -1049,6 +1248,36 @@ def gen_direct(rng):
     return {"fwc": f, "outputs": outs}
 
 
+def gen_direct_raw(rng):
+    """(marker set, outputs as BYTES): anything at all - the families of gen_raw_output without the channel's constraints (blank edges,
+    control characters), random byte strings, a marker / look-alike / near miss placed among them"""
+    k = rng.random()
+    if k < 0.3:
+        f = rng.choice(["ERR", ["ERR", "bad thing"], "% Invalid input", ["\u00e9!"], "\u00e9", ["\u00fc-marker", "ERR"], "\u20ac5", None, []])
+    else:
+        f = gen_marker_set(rng)
+    M = [] if f is None else ([f] if isinstance(f, str) else list(f))
+    outs = []
+    for _ in range(rng.choice([1, 1, 2, 3, 4])):
+        k = rng.random()
+        if k < 0.55:
+            x = gen_raw_output(rng, M, safe=False)
+            b = out_bytes(x)
+        else:
+            b = bytes(rng.choice([rng.randrange(256), rng.randrange(0x80, 0x100), rng.randrange(0x20, 0x7f)]) for _ in range(rng.randint(0, 10)))
+            ms = [m for m in M if m]
+            if ms and rng.random() < 0.5:
+                m = rng.choice(ms)
+                if rng.random() < 0.3:
+                    nm = near_misses(rng, m)
+                    m = rng.choice(nm) if nm else m
+                i = rng.randint(0, len(b))
+                b = b[:i] + rng.choice([m.encode("utf-8"), m.encode("utf-8"), m.encode("latin-1", "replace")]) + b[i:]
+        b = rng.choice([b"", b"", b" ", b"\n", b"line\n"]) + b + rng.choice([b"", b"", b" ", b"\nline", b"\t"])
+        outs.append(b.decode("utf-8") if is_utf8(b) and rng.random() < 0.5 else {"hex": b.hex()})
+    return {"fwc": f, "outputs": outs}
+
+
 def run_direct(case):
     """the real Response / MultiResponse on one (marker set, outputs) case"""
     from scrapli.response import MultiResponse, Response
@@ -1057,7 +1286,7 @@ def run_direct(case):
         multi = MultiResponse()
         for out in case["outputs"]:
             r = Response(host="sim", channel_input="x", failed_when_contains=case["fwc"])
-            r.record_response(out.encode("utf-8"))
+            r.record_response(out_bytes(out))
             multi.append(r)
             o["flags"].append(r.failed)
             o["results"].append(r.result)
@@ -1074,14 +1303,16 @@ def oracle_direct(case, o):
         return [("response-exception-" + o["exc"], "recording the output %r with the markers %r raised %s" % (
             case["outputs"][len(o["flags"]):][:1], M, o["exc"]))]
     bad = []
-    if o["results"] != case["outputs"]:
-        bad.append(("response-result", "the recorded output differs from the bytes given"))
-    want = [any(m in out for m in M) for out in case["outputs"]]
+    texts = [out_text(x) for x in case["outputs"]]
+    if o["results"] != texts:
+        bad.append(("response-result", "the recorded output differs from the bytes given (read as UTF-8, or as ISO-8859-1 where they are not UTF-8)"))
+    want = [any(m in out for m in M) for out in texts]
     for j, (got, w) in enumerate(zip(o["flags"], want)):
         if got != w:
-            lit = [m for m in M if m in case["outputs"][j]]
+            lit = [m for m in M if m in texts[j]]
+            shown = case["outputs"][j]
             bad.append(("failed-vs-output", "output %r with the markers %r: failed=%s, but %s" % (
-                case["outputs"][j][:120], [m[:60] for m in M], got,
+                out_bytes(shown)[:120] if isinstance(shown, dict) else shown[:120], [m[:60] for m in M], got,
                 "the marker %r occurs in it" % lit[0][:60] if lit else "no marker occurs in it")))
             break
     if not bad and o["multi"] != any(want):
@@ -1092,8 +1323,8 @@ def oracle_direct(case, o):
 def direct_term(case, o):
     f = case["fwc"]
     fwc = "FNone" if f is None else ("(FStr %s)" % u8(f) if isinstance(f, str) else "(FList %s)" % coq_list([u8(x) for x in f]))
-    return "((%s, %s, %s, %s) : dcase)" % (fwc, coq_list([u8(x) for x in case["outputs"]]), coq_list([coq_bool(x) for x in o["flags"]]),
-                                           coq_bool(bool(o["multi"])))
+    return "((%s, %s, %s, %s, %s) : dcase)" % (fwc, coq_list([coq_bytes(out_bytes(x)) for x in case["outputs"]]), coq_list([u8(x) for x in o["results"]]),
+                                               coq_list([coq_bool(x) for x in o["flags"]]), coq_bool(bool(o["multi"])))
 
 
 def minimise_direct(case, sig):
@@ -1166,6 +1397,13 @@ def minimise(scn, k, workdir, sig):
         cand = dict(best, ops=[best["ops"][-1]])
         if fails(cand):
             best = cand
+        else:                                      # the history of the file may be what matters: keep the ops on the same path
+            same = [x for x in best["ops"][:-1] if x.get("path_id") is not None and x.get("path_id") == best["ops"][-1].get("path_id")]
+            for hist in ([same[-1:], same] if same else []):
+                cand = dict(best, ops=list(hist) + [best["ops"][-1]])
+                if len(cand["ops"]) < len(best["ops"]) and fails(cand):
+                    best = cand
+                    break
     op = best["ops"][-1]
     if op["op"] in ("send_commands", "send_configs"):
         changed = True
@@ -1258,7 +1496,23 @@ def run(rep):
         for stack in ("sync", "async"):
             for s in exhaustive_small(kind, stack, 4 if thorough else 3):
                 scenarios.append(("exhaustive", s))
-    dist = {"by_stream": {}, "by_kind": {}, "by_op": {}, "by_stack": {}, "lines_hist": {}, "stop": 0, "eager": 0, "policy": {},
+    # device outputs as bytes (own generator state, so that the streams above are what they were): fixed shapes on every driver, then generated
+    import random
+    rng_raw = random.Random(rep.seed * 1000003 + 0xC13B)
+    for s in raw_corpus():
+        scenarios.append(("rawout", s))
+    for j in range(360 if thorough else 56):
+        scenarios.append(("rawout", gen_raw_scenario(rng_raw, trans, kind=KINDS[j % len(KINDS)] if j < 2 * len(KINDS) else None,
+                                                     stack=("sync", "async")[(j // len(KINDS)) % 2] if j < 2 * len(KINDS) else None)))
+    for s in file_history_corpus():
+        scenarios.append(("file-history", s))
+    for _ in range(100 if thorough else 14):
+        scenarios.append(("file-history", gen_file_history(rng_raw, trans)))
+    dist = {"file_resent": {"ops": 0, "content_changed": 0, "mtime_preserved": 0},
+            "raw_outputs": {"not_utf8": 0, "multibyte_utf8": 0, "with_marker": 0, "without_marker": 0, "not_utf8_without_marker": 0,
+                            "not_utf8_with_marker": 0, "not_utf8_without_marker_before_last_line_of_stop_on_failed_run": 0,
+                            "non_ascii_marker_sets": 0},
+            "by_stream": {}, "by_kind": {}, "by_op": {}, "by_stack": {}, "lines_hist": {}, "stop": 0, "eager": 0, "policy": {},
             "fwc_kind": {}, "first_failing_pos": {}, "aborts_seen": 0, "unicode_lines": 0, "blank_lines": 0, "long_lines": 0,
             "nav_events": 0, "exceptions": {}, "stalled_calls": 0,
             "long_multibyte_lines": 0, "repeated_lines": 0, "adjacent_repeats": 0, "max_line_bytes": 0, "line_bytes_hist": {},
@@ -1278,6 +1532,11 @@ def run(rep):
             op = scn["ops"][k]
             kind = scn["kind"]
             lines = op_lines(op)
+            prev = [x for x in scn["ops"][:k] if x.get("path_id") is not None and x.get("path_id") == op.get("path_id")]
+            if prev:
+                dist["file_resent"]["ops"] += 1
+                dist["file_resent"]["content_changed"] += prev[-1]["text"] != op["text"]
+                dist["file_resent"]["mtime_preserved"] += bool(op.get("keep_mtime"))
             dist["by_stream"][stream] = dist["by_stream"].get(stream, 0) + 1
             dist["by_kind"][kind] = dist["by_kind"].get(kind, 0) + 1
             dist["by_op"][op["op"]] = dist["by_op"].get(op["op"], 0) + 1
@@ -1308,8 +1567,23 @@ def run(rep):
                 dist["first_failing_pos"][ff] = dist["first_failing_pos"].get(ff, 0) + 1
             if any(p[1].decode("latin-1").strip() in ABORT_STEPS.get(kind, set()) for p in o["log"]):
                 dist["aborts_seen"] += 1
+            if any(isinstance(x, dict) or any(ord(c) > 127 for c in x) for x in op["outs"]):
+                ro, Mk = dist["raw_outputs"], call_markers(kind, op, o)
+                ro["non_ascii_marker_sets"] += any(ord(c) > 127 for m in Mk for c in m)
+                for j, x in enumerate(op["outs"][:len(lines)]):
+                    bx = out_bytes(x)
+                    if not any(c > 127 for c in bx):
+                        continue
+                    hit = any(m in out_text(x) for m in Mk)
+                    bad8 = not is_utf8(bx)
+                    ro["not_utf8" if bad8 else "multibyte_utf8"] += 1
+                    ro["with_marker" if hit else "without_marker"] += 1
+                    if bad8:
+                        ro["not_utf8_with_marker" if hit else "not_utf8_without_marker"] += 1
+                        ro["not_utf8_without_marker_before_last_line_of_stop_on_failed_run"] += (
+                            not hit and op["op"] != "send_command" and op["stop"] and j < len(lines) - 1 and not op["eager"])
             if stream == "markers":
-                marker_stats(dist, call_markers(kind, op, o), [x for l, x in zip(lines, op["outs"]) if dev_key(l)])
+                marker_stats(dist, call_markers(kind, op, o), [out_text(x) for l, x in zip(lines, op["outs"]) if dev_key(l)])
                 dist["marker_sets"]["driver_level"] += op["fwc"] is None and op.get("dflt") is not None
                 for fl in (o["flags"] or ([o["merged"][0]] if o["merged"] else [])):
                     dist["marker_sets"]["failed_flags"][str(bool(fl))] += 1
@@ -1347,6 +1621,7 @@ def run(rep):
         rep.notes.append("straddle replay could not run: %r" % (e,))
     # the response layer alone (real Response / MultiResponse, no device): marker sets as text x outputs of every shape
     dcases, dterms, dmeta, dfails = [gen_direct(rng) for _ in range(4000 if thorough else 500)], [], [], []
+    dcases += [gen_direct_raw(rng_raw) for _ in range(2000 if thorough else 250)]
     ddist = {"sets": 0, "with_metachar": 0, "with_empty_marker": 0, "with_long_marker": 0, "with_nested_markers": 0,
              "not_a_valid_pattern": 0, "outputs": {}, "failed_flags": {"True": 0, "False": 0}, "exceptions": {}}
     for dc in dcases:
@@ -1355,7 +1630,12 @@ def run(rep):
         for sig, text in dbad:
             dfails.append((dc, sig, text))
         f = dc["fwc"]
-        marker_stats({"marker_sets": ddist}, [] if f is None else ([f] if isinstance(f, str) else list(f)), dc["outputs"])
+        marker_stats({"marker_sets": ddist}, [] if f is None else ([f] if isinstance(f, str) else list(f)), [out_text(x) for x in dc["outputs"]])
+        for x in dc["outputs"]:
+            bx = out_bytes(x)
+            if any(c > 127 for c in bx):
+                key = "outputs_multibyte_utf8" if is_utf8(bx) else "outputs_not_utf8"
+                ddist[key] = ddist.get(key, 0) + 1
         for fl in do["flags"]:
             ddist["failed_flags"][str(bool(fl))] += 1
         rep.case(("response", json.dumps(dc, sort_keys=True)), nontrivial=len(dc["outputs"]) > 1 or bool(do["exc"]))
@@ -1381,13 +1661,13 @@ def run(rep):
 
     def eval_direct():
         try:
-            dres["r"] = common.eval_cases(rep.workdir, "cases_c13_direct", DIRECT_HEADER, dterms, "dchk", shard=1000)
+            dres["r"] = common.eval_cases(rep.workdir, "cases_c13_direct", DIRECT_HEADER, dterms, "dchk", shard=max(100, -(-len(dterms) // DIRECT_JOBS)))
         except Exception as e:  # noqa
             dres["r"] = (None, "response-direct evaluation: %r" % (e,))
     th = threading.Thread(target=eval_direct)
     if gen_ok:
         th.start()
-    order, shard = balanced_order([len(t) for t in terms], common.JOBS)
+    order, shard = balanced_order([len(t) for t in terms], max(1, common.JOBS - DIRECT_JOBS))
     badix, log = (None, "generated file missing") if not gen_ok else common.eval_cases(
         rep.workdir, "cases_c13", HEADER, [terms[i] for i in order], "chk", shard=shard)
     if badix is not None:
@@ -1414,6 +1694,8 @@ def run(rep):
                 "response layer alone): markers over an alphabet with every regular-expression / glob metacharacter, the vendors' complaints in "
                 "full, markers that are prefixes / suffixes / superstrings / case variants of each other, the empty marker, markers of 260-420 (thorough: up to 1500) "
                 "characters, against outputs that carry a marker literally, a string a pattern reading of the marker accepts, or a near miss; "
+                "device outputs as bytes (stream 'rawout' + response layer): not well-formed UTF-8 (lone continuation bytes, ISO-8859-1 text, truncated and "
+                "ill-formed sequences) and well-formed multi-byte UTF-8, with and without a marker, mostly stop_on_failed runs of 1-5 lines, all read-chunking policies; "
                 "non-trivial = more than one line or an exception; distinct = (driver, stack, op)")
     seen = set()
     for scn, k, sig, text in fails:
@@ -1531,7 +1813,8 @@ def replay(path):
     if r.get("suite") == "response-direct" and r.get("case"):
         case = r["case"]
         o = run_direct(case)
-        print("Response(failed_when_contains=%r).record_response for the outputs %r" % (case["fwc"], [x[:120] for x in case["outputs"]]))
+        print("Response(failed_when_contains=%r).record_response for the outputs %r" % (
+            case["fwc"], [out_bytes(x)[:120] if isinstance(x, dict) else x[:120] for x in case["outputs"]]))
         print("   outcome: exc=%s flags=%s MultiResponse.failed=%s" % (o["exc"], o["flags"], o["multi"]))
         bad = oracle_direct(case, o)
         for sig, text in bad:
@@ -1548,9 +1831,12 @@ def replay(path):
     rc = 0
     for k, o in enumerate(obs):
         op = scn["ops"][k]
-        print("op %d: %s %s %s lines=%r stop=%s eager=%s priv=%r fwc=%r" % (
-            k, scn["kind"], scn["stack"], op["op"], [l[:50] for l in op_lines(op)], op["stop"], op["eager"], op.get("priv"), op["fwc"]))
+        print("op %d: %s %s %s lines=%r stop=%s eager=%s priv=%r fwc=%r%s" % (
+            k, scn["kind"], scn["stack"], op["op"], [l[:50] for l in op_lines(op)], op["stop"], op["eager"], op.get("priv"), op["fwc"],
+            "" if op.get("path_id") is None else " file #%d%s" % (op["path_id"], " (rewritten, modification time kept)" if op.get("keep_mtime") else "")))
         print("   outcome: exc=%s flags=%s merged=%s belief %s -> %s" % (o["exc"], o["flags"], o["merged"], o["cur0"], o["cur"]))
+        if any(isinstance(x, dict) for x in op["outs"]):
+            print("   device outputs (bytes): %r" % [out_bytes(x)[:80] for x in op["outs"]])
         print("   device log: %r" % [(m, raw if len(raw) <= 80 else raw[:40] + b"...(%d bytes)..." % len(raw) + raw[-30:], "nav" if nav else "")
                                      for m, raw, _, nav in o["log"]])
         if o["starved"]:
@@ -1568,12 +1854,16 @@ def replay(path):
 
 
 MANIFEST = {
-    "text": "Coq theorems (props/C13.v, 27 property theorems, all 'Closed under the global context') over the model of the send paths "
-            "(coq/model/Send.v, Response.v), for ALL line lists, ALL devices (an arbitrary function position x line -> output), marker sets and flags: "
+    "text": "Coq theorems (props/C13.v, 30 property theorems, all 'Closed under the global context') over the model of the send paths "
+            "(coq/model/Send.v, Response.v, ResponseRaw.v), for ALL line lists, ALL devices (an arbitrary function position x line -> output), marker sets and flags: "
             "C13_delivery_exact / C13_delivery_bytes (send_commands: each line once, in order, byte for byte, one return each, one response per line; "
             "the empty list included), C13_stop_on_failed_prefix (first failing position k => exactly lines 0..k), C13_failed_iff_marker, "
             "C13_failed_marker_literal (the flag is literal containment and nothing else, with witnesses whose markers are regular-expression "
             "metacharacters: 'a.c' is not in 'abc'; '(' ; 'E|R' ; 'a*' ; the full IOS complaint with its '^'), "
+            "C13_failed_iff_marker_raw / C13_failed_raw_ascii_markers / C13_decode_output_text (the output as the BYTES the channel returned, ANY bytes: "
+            "read as UTF-8 where well-formed and as ISO-8859-1 otherwise, the response is failed iff a marker occurs in that text; for ASCII markers "
+            "iff the marker's bytes occur in the raw output itself, so a byte that is not UTF-8 neither hides a marker nor makes one up; the reading "
+            "is the identity on well-formed UTF-8 and always yields text), "
             "C13_multi_failed_iff_any, C13_net_send_commands / C13_send_configs_delivery / C13_delivery_device (only [navigation] ++ lines; device-side log "
             "= the lines in the target level), C13_send_configs_failed_run / C13_abort_in_session (failed run = [navigation] ++ lines 0..k ++ abort step, "
             "no navigation after the first line; device-side: abort lines logged in the failed session's level) for every abort shape that keeps the level, "
@@ -1602,7 +1892,19 @@ MANIFEST = {
             "character dropped / changed / doubled, case, blank or line break inserted, reversed); the oracle's expectation is literal containment "
             "only, a raised exception is a failure, and stop_on_failed / abort are decided on the device's log as everywhere else. The same marker "
             "sets (plus markers with line breaks and blank edges, outputs with the marker at the very edge, empty outputs) are put to the real "
-            "Response / MultiResponse directly (suite response-direct, model = record_response / multi_failed, replayable).",
+            "Response / MultiResponse directly (suite response-direct, model = record_raw / multi_failed, replayable). "
+            "Device outputs as BYTES (stream 'rawout', all seven drivers, both stacks, every op kind, all read-chunking policies - reads that end "
+            "inside a multi-byte sequence -, mostly stop_on_failed histories of 1-5 lines, + fixed shapes on every driver): outputs with bytes >= 0x80 "
+            "that are not well-formed UTF-8 (lone continuation bytes, ISO-8859-1 text, truncated sequences at the end / before ASCII, ill-formed "
+            "sequences: overlong forms, surrogates, above U+10FFFF, 0xFE/0xFF) and well-formed multi-byte UTF-8 of every width, each WITHOUT a marker "
+            "(the run must go on: every later line is sent) and WITH one (before / after / right next to such bytes, on another line; the run stops "
+            "exactly there), near misses (a marker broken by such a byte), ASCII and non-ASCII marker sets; the same output families without the "
+            "channel's constraints plus random byte strings go to the real Response directly (flags, MultiResponse.failed and the recorded result "
+            "text are compared). Oracle unchanged: failed <=> a marker occurs in the output, exactly the lines up to the first failed one are sent. "
+            "File histories (stream 'file-history'): the SAME file path is sent two or three times on one connection, rewritten in between (other "
+            "lines, fewer / more, or unchanged; modification time preserved as by cp -p, or not): every send must deliver the lines the file holds "
+            "at that moment. Every connection keeps its files in a directory of its own, so a scenario fails or holds on its own and the replay "
+            "in a fresh process sees what the run saw.",
     "note": "Proved on the model; the runtime is observed (partial): privilege navigation is abstracted to one event per acquire_priv call (its "
             "content is C04's subject; observed by wrapping acquire_priv on the driver instance, and checked device-side to consist of vendor transitions only), "
             "the channel's echo/prompt reading is C01/C02's subject (the device output per line is an arbitrary function in the theorems and the observed "
@@ -1618,6 +1920,17 @@ MANIFEST = {
             "C13_failed_marker_literal, not oracle-only; its device outputs end every line in a letter, digit or . ) ! ' \" and are read unsplit, because the "
             "channel removes lines that end like a prompt (# > $ % ~ @ : ]) and rstrips lines (C01/C02's subject), so that what the device printed is what "
             "the response holds; markers of type bytes are not accepted by the code (str `in` raises TypeError) and are outside the property's domain. "
+            "Outputs that are not UTF-8: the decoding step of record_response IS modelled (ResponseRaw.v: utf8_valid = the standard's table of "
+            "well-formed sequences, latin1_text, decode_output, record_raw) and confronted with the real Response on raw bytes in suite response-direct "
+            "(flags and result text); in the send-level correspondence the per-line output given to the model is the text the response holds (the "
+            "observed result, as before), so there the step from the device's bytes to that text is decided by the oracle and the response-layer "
+            "model, not by Send.v. The oracle reads planned bytes as text with its own well-formedness check (is_utf8, written from the "
+            "standard's table, it does not call the code under test): UTF-8 where well-formed, otherwise one character per byte - the documented reading of Response.result; for ASCII "
+            "markers (the bulk) the expectation does not depend on that reading at all (C13_failed_raw_ascii_markers), for the few non-ASCII "
+            "markers on non-UTF-8 output it does. Raw outputs keep to the marker stream's constraints (no line ends like a prompt, no control "
+            "characters; bytes >= 0x80 are no prompt characters and no ASCII blanks). "
+            "File histories go through the modelled from-file path (the model is given the text the file holds at the call; it has no state "
+            "between calls, which is what the property says). "
             "Unknown privilege level names (malformed stream) are model-vs-implementation only. Trusted: Coq kernel + vm_compute, gen/gen_send.py "
             "(AST reading of _abort_config / send_commands), SimDevice and the scripted transports.",
     "technique": "Coq proofs by induction over the line list (loop invariant of the all-but-last loop with break, splitlines scanner invariant, infix/join lemma) "
